@@ -122,17 +122,19 @@ func c02Case(r *evid.Run, tier string, idx int, g *rng.R) {
 	for i := range fwd {
 		rev[len(fwd)-1-i] = fwd[i]
 	}
-	w.env.Vars = map[refeval.Name]refeval.Value{{Space: "", Local: "fwd"}: vset, {Space: "", Local: "rev"}: vset}
+	shuf := append(xsel.NodeSet{}, fwd...)
+	rng.Shuffle(g, shuf)
+	w.env.Vars = map[refeval.Name]refeval.Value{{Space: "", Local: "fwd"}: vset, {Space: "", Local: "rev"}: vset, {Space: "", Local: "shuf"}: vset}
 	w.env.NS = map[string]string{"p": canonNS["p"], "q": canonNS["q"], "r": canonNS["r"], "xml": adoc.XMLNS, "v": probeNS}
 	w.opts = nsOpts(w.env.NS)
 	w.env.Funcs = map[refeval.Name]refeval.Func{{Space: probeNS, Local: "nodes"}: func(c refeval.Ctx, cs refeval.NodeSet, a []refeval.Value) (refeval.Value, error) {
 		return vset, nil
 	}}
-	bind := []xsel.ContextApply{xsel.WithVariable("fwd", fwd), xsel.WithVariable("rev", rev),
+	bind := []xsel.ContextApply{xsel.WithVariable("fwd", fwd), xsel.WithVariable("rev", rev), xsel.WithVariable("shuf", shuf),
 		xsel.WithFunctionNS(probeNS, "nodes", func(ctx xsel.Context, args ...xsel.Result) (xsel.Result, error) {
 			return append(xsel.NodeSet{}, rev...), nil
 		})}
-	cfg.Vars = []xast.VarSpec{{Local: "fwd", T: xast.TNodeSet}, {Local: "rev", T: xast.TNodeSet}}
+	cfg.Vars = []xast.VarSpec{{Local: "fwd", T: xast.TNodeSet}, {Local: "rev", T: xast.TNodeSet}, {Local: "shuf", T: xast.TNodeSet}}
 
 	note := func(e xast.Expr, v refeval.Value, class string) {
 		nt := nontrivialSet(v, total)
@@ -168,7 +170,9 @@ func c02Case(r *evid.Run, tier string, idx int, g *rng.R) {
 	cfg.Filters = true
 	for i := 0; i < n1; i++ {
 		var head xast.Expr
-		switch g.Intn(5) {
+		switch g.Intn(6) {
+		case 5:
+			head = xast.Var{Local: "shuf"}
 		case 0:
 			head = xast.Var{Local: "fwd"}
 		case 1:
